@@ -248,6 +248,9 @@ def install(reg):
             for x in src["items"]:
                 tot = tot + p.as_int(x)
             return VInt(tot)
+        h = p.deref(args[0])
+        if isinstance(h, HList):
+            return VInt(p.engine.uf("sum_seq", PVSEQ, I)(p.list_seq(h)))
         raise Unsupported("sum of symbolic sequence")
     E["sum"] = b_sum
 
